@@ -105,7 +105,7 @@ class SpecGeom:
             gnd_sgn[1] = -1.0
         sign = [sg[0] * gnd_sgn[0], sg[1] * gnd_sgn[1]]
         rad = [self.radii[pu['sa'][0]], self.radii[pu['sb'][0]]] if self.radii else [self.radius, self.radius]
-        return dict(rfac=[rfac(rad[0]), rfac(rad[1])], pt=np.array(pt, float), ends=[np.array(e, float) for e in ends], dirs=[ua, ub],
+        return dict(rad=rad, rfac=[rfac(rad[0]), rfac(rad[1])], pt=np.array(pt, float), ends=[np.array(e, float) for e in ends], dirs=[ua, ub],
                     lens=[La, Lb], dir_sgn=sg, sign=sign, gnd_sgn=gnd_sgn, ground=ground,
                     grounded=any(ground))
 
@@ -192,6 +192,108 @@ class SpecGeom:
                                 max(abs(psi(hm_m, xn, e_p)), abs(psi(hm_p, xn, e_p))) / pn['lens'][1] * f1,
                                 max(abs(psi(hm_p, e_m, xn)), abs(psi(hm_m, e_m, xn))) / pn['lens'][0] * f0)
         return (Z, S) if with_scale else Z
+
+    # ---------------------------------------------------------------- true kernel (numerical)
+    _GL = np.polynomial.legendre.leggauss(40)
+
+    @classmethod
+    def psi_true(cls, obs, a, b, k, a2):
+        """integral of exp(-jkR)/R along the straight piece a..b, R^2 = |r - r'|^2 + a2 (a2 = radius^2 of the source wire
+           for the thick-wire kernel, 0 below the thin-wire limit); 40-point Gauss-Legendre: for observation points
+           half a segment or more away the integrand is smooth and the rule exact to rounding"""
+        x, w = cls._GL
+        t = 0.5 * (x + 1.0)
+        p = a[None, :] + t[:, None] * (b - a)[None, :]
+        R = np.sqrt(((p - obs[None, :]) ** 2).sum(1) + a2)
+        return complex((0.5 * w * np.exp(-1j * k * R) / R).sum() * np.linalg.norm(b - a))
+
+    @classmethod
+    def grad_true(cls, obs, a, b, k, a2):
+        """gradient with respect to the observation point of psi_true"""
+        x, w = cls._GL
+        t = 0.5 * (x + 1.0)
+        p = a[None, :] + t[:, None] * (b - a)[None, :]
+        dv = obs[None, :] - p
+        R = np.sqrt((dv ** 2).sum(1) + a2)
+        g = -(1.0 + 1j * k * R) * np.exp(-1j * k * R) / R ** 3
+        return ((0.5 * w * g)[:, None] * dv).sum(0) * np.linalg.norm(b - a)
+
+    def true_fields(self, I, k, mfac, r, srm):
+        """E and H at r (power scaling 1) of the pulse currents and their charges with the true kernel (image currents over
+           ground): the same expressions as surrogate_fields, the kernel integrals evaluated numerically"""
+        ks = (1, -1) if self.ground else (1,)
+        k2 = k * k
+        E = np.zeros(3, dtype=complex)
+        H = np.zeros(3, dtype=complex)
+        for p, cur in zip(self.pulses, I):
+            a2 = [x * x if x > srm else 0.0 for x in p['rad']]
+            for kk in ks:
+                if kk < 0 and p['grounded']:
+                    continue
+                kv = np.array([1.0, 1.0, kk])
+                x = p['pt'] * kv
+                hm, hp = self.half(p, -1) * kv, self.half(p, 1) * kv
+                em, ep = p['ends'][0] * kv, p['ends'][1] * kv
+                g = p['gnd_sgn']
+                D0 = p['dirs'][0] * np.array([1, 1, g[0]]) * kv * p['sign'][0]
+                D1 = p['dirs'][1] * np.array([1, 1, g[1]]) * kv * p['sign'][1]
+                A = D0 * self.psi_true(r, hm, x, k, a2[0]) + D1 * self.psi_true(r, x, hp, k, a2[1])
+                gphi = self.grad_true(r, x, ep, k, a2[1]) / p['lens'][1] - self.grad_true(r, em, x, k, a2[0]) / p['lens'][0]
+                E += cur * kk * (k2 * A - gphi)
+                H += cur * kk * (np.cross(self.grad_true(r, hm, x, k, a2[0]), D0) + np.cross(self.grad_true(r, x, hp, k, a2[1]), D1))
+        return -1j * mfac * E, H / (4 * math.pi)
+
+    def clearance(self, r):
+        """distance of r from the nearest conductor (or image) in units of the segment length of that conductor"""
+        best = 1e300
+        for p in self.pulses:
+            for kk in ((1, -1) if self.ground else (1,)):
+                kv = np.array([1.0, 1.0, kk])
+                for h in range(2):
+                    a, b = p['pt'] * kv, p['ends'][h] * kv
+                    d = b - a
+                    t = min(1.0, max(0.0, float(np.dot(r - a, d) / np.dot(d, d))))
+                    best = min(best, float(np.linalg.norm(r - (a + t * d))) / p['lens'][h])
+        return best
+
+    def true_matrix(self, k, srm, min_sep=2.5):
+        """the published MININEC-3 formulation with the true kernel for all pulse pairs whose centres are at least
+           min_sep segment lengths (of the longest of the four segments involved) apart: (Z, scale, mask); scale =
+           sum of the magnitudes of the potential terms an entry is composed of"""
+        n = len(self.pulses)
+        Z = np.zeros((n, n), dtype=complex)
+        S = np.zeros((n, n))
+        M = np.zeros((n, n), dtype=bool)
+        w2 = k * k / 2
+        ks = (1, -1) if self.ground else (1,)
+        for mi, pm in enumerate(self.pulses):
+            xm = pm['pt']
+            hm_m, hm_p = self.half(pm, -1), self.half(pm, 1)
+            zzz = sum(pm['dir_sgn'][h] * pm['lens'][h] * pm['dirs'][h] for h in range(2))
+            for ni, pn in enumerate(self.pulses):
+                if np.linalg.norm(pm['pt'] - pn['pt']) < min_sep * max(pm['lens'] + pn['lens']):
+                    continue
+                M[mi, ni] = True
+                a2 = [r * r if r > srm else 0.0 for r in pn['rad']]
+                for kk in ks:
+                    if kk < 0 and pn['grounded']:
+                        continue
+                    kv = np.array([1.0, 1.0, kk])
+                    xn = pn['pt'] * kv
+                    a_m, a_p = self.half(pn, -1) * kv, self.half(pn, 1) * kv
+                    e_m, e_p = pn['ends'][0] * kv, pn['ends'][1] * kv
+                    u = self.psi_true(xm, xn, a_p, k, a2[1]) * pn['sign'][1]
+                    v = self.psi_true(xm, a_m, xn, k, a2[0]) * pn['sign'][0]
+                    g = pn['gnd_sgn']
+                    vec3 = (np.array([1, 1, g[1]]) * u * pn['dirs'][1] +
+                            np.array([1, 1, g[0]]) * v * pn['dirs'][0]) * kv
+                    t1 = [self.psi_true(hm_m, xn, e_p, k, a2[1]), self.psi_true(hm_p, xn, e_p, k, a2[1]),
+                          self.psi_true(hm_p, e_m, xn, k, a2[0]), self.psi_true(hm_m, e_m, xn, k, a2[0])]
+                    u12 = (t1[0] - t1[1]) / pn['lens'][1] + (t1[2] - t1[3]) / pn['lens'][0]
+                    Z[mi, ni] += kk * (w2 * (vec3 @ zzz) + u12)
+                    S[mi, ni] += (abs(w2) * (abs(u) + abs(v)) * float(np.abs(zzz).max()) +
+                                  (abs(t1[0]) + abs(t1[1])) / pn['lens'][1] + (abs(t1[2]) + abs(t1[3])) / pn['lens'][0])
+        return Z, S, M
 
     def surrogate_fields(self, I, k, mfac, r):
         """E and H at r (power scaling 1) under the surrogate kernel"""
